@@ -137,7 +137,7 @@ def build(env, per_cell):
 def failing_seal_session(cw, g, rnd, kem, kdf, mode):
     """The built-in AEADs only fail beyond 2^36 bytes; the mock AEAD of harness/src/probe.rs (public Aead trait, id 0x7777)
     fails on request.  A seal that fails must be reported the same way by the single-shot form and by setup + seal."""
-    s = cw.session(kem, kdf, 0x7777, sid="q%d" % len(cw.sessions))
+    s = cw.session(kem, kdf, (0x7777, 0x7778, 0x777A, 0x7779)[(len(cw.sessions) + mode) % 4], sid="q%d" % len(cw.sessions))
     nsk = gen.nsk(kem)
     gen.add_keys(s, g, kem, "kR")
     gen.add_keys(s, g, kem, "kS")
@@ -145,6 +145,15 @@ def failing_seal_session(cw, g, rnd, kem, kdf, mode):
     sa = dict(sks="$kS.sk", pks="$kS.pk", **pa) if mode in (2, 3) else dict(pa)
     rng = g.rbytes(nsk)
     k = 0
+    # the two forms of seal on twin contexts (tags of 16, 20 and 32 bytes, nonces of 8 to 24 bytes)
+    s.call("probe_ctl", fail_seal=0)
+    s.call("setup_s", mode=mode, pkr="$kR.pk", info="6162", rng=rng, out="T1", **sa)
+    s.call("setup_s", mode=mode, pkr="$kR.pk", info="6162", rng=rng, out="T2", **sa)
+    for j in range(2):
+        k += 1
+        pt, aad = g.rbytes(rnd.choice([0, 1, 17])), g.rbytes(rnd.choice([0, 3]))
+        s.call("seal", ctx="T1", api="alloc", pt=pt, aad=aad, pair=k, side="a", cmp="seal_forms", path="mock_aead")
+        s.call("seal", ctx="T2", api="inplace", pt=pt, aad=aad, pair=k, side="b", cmp="seal_forms", path="mock_aead")
     for api in ("alloc", "inplace"):
         for fail in (1, 0):
             k += 1
